@@ -53,6 +53,19 @@ def _plain(v):
     return repr(v)
 
 
+def exc_origin(e):
+    """'library' if the innermost optiland/checks frame of the traceback is optiland code, else 'harness'"""
+    import traceback as _tb
+    origin = 'harness'
+    for fr in _tb.extract_tb(e.__traceback__):
+        fn = fr.filename.replace('\\', '/')
+        if '/optiland/' in fn:
+            origin = 'library'
+        elif '/checks/' in fn or '/symopt/' in fn:
+            origin = 'harness'
+    return origin
+
+
 def run_scenario(sc):
     warnings.filterwarnings('ignore')
     os.environ.setdefault('MPLBACKEND', 'Agg')
@@ -72,7 +85,7 @@ def run_scenario(sc):
         res['status'] = 'invalid'
         res['detail'] = str(e)
     except Exception as e:
-        res['status'] = 'exception'
+        res['status'] = 'exception' if exc_origin(e) == 'library' else 'error'
         res['exception'] = type(e).__name__
         res['detail'] = ''.join(traceback.format_exception(e))[-1500:]
     for name, cond, info in ctx.obligations:
@@ -85,7 +98,7 @@ def run_scenario(sc):
     for name, v in ctx.observations:
         res['observations'][name] = _plain(v)
     res['inputs_used'] = {n: _plain(i.get('value')) for n, i in ctx.inputs.items()}
-    res['violated'] = [n for n, ok in res['obligations'].items() if ok is False] if res['status'] != 'invalid' else []
+    res['violated'] = [n for n, ok in res['obligations'].items() if ok is False] if res['status'] in ('ok', 'exception') else []
     return res
 
 
